@@ -38,7 +38,7 @@ H(sni, up, alpn, peer, vers) == [sni |-> sni, up |-> up, alpn |-> alpn, peer |->
 SeqsUpTo(S, n) == UNION { [1..k -> S] : k \in 1..n }
 
 SelCases(profiles, maxlen, snis, alpns, versions) ==
-  { [side |-> "srv", ctxs |-> cl, insp |-> FALSE, first |-> "tls", hello |-> H(s[1], s[2], a, "none", v)] :
+  { [side |-> "srv", ctxs |-> cl, upds |-> <<>>, insp |-> FALSE, first |-> "tls", hello |-> H(s[1], s[2], a, "none", v)] :
       cl \in SeqsUpTo(profiles, maxlen), s \in snis, a \in alpns, v \in versions }
 
 QuickProfiles == {pA, pW, pB, pC, pAn, pWn, pSn, pSf}
@@ -55,25 +55,54 @@ Q(names, v, r, ca) == [names |-> names, sn |-> <<>>, alpn |-> {}, ready |-> TRUE
 AuthLists == { <<Q({nA}, v, r, "ca1")>> : v, r \in BOOLEAN }
              \cup { <<Q({nA}, m[1], m[2], "ca1"), Q({nB}, m[3], m[4], "ca2")>> : m \in [1..4 -> BOOLEAN] }
 AuthCases(versions) ==
-  { [side |-> "srv", ctxs |-> cl, insp |-> FALSE, first |-> "tls", hello |-> H(s, FALSE, {}, p, v)] :
+  { [side |-> "srv", ctxs |-> cl, upds |-> <<>>, insp |-> FALSE, first |-> "tls", hello |-> H(s, FALSE, {}, p, v)] :
       cl \in AuthLists, s \in {nA, nB}, p \in PeerKinds, v \in versions }
 
 (* inspector / readiness *)
 InspLists == { <<pA>>, <<pAn>>, <<pAn, pA>>, <<pB, pA>>, <<pAn, pWn>> }
 InspCases ==
-  { [side |-> "srv", ctxs |-> cl, insp |-> b, first |-> f, hello |-> H(s, FALSE, {}, "none", 13)] :
+  { [side |-> "srv", ctxs |-> cl, upds |-> <<>>, insp |-> b, first |-> f, hello |-> H(s, FALSE, {}, "none", 13)] :
       cl \in InspLists, b \in BOOLEAN, f \in {"tls", "plain"}, s \in {<<>>, nA} }
 
-QuickSrv(x) == SelCases(QuickProfiles, 3, QuickSnis, QuickAlpns, {12, 13}) \cup AuthCases({12, 13}) \cup InspCases
-ThoroughSrv(x) == SelCases(ThoroughProfiles, 3, ThoroughSnis, ThoroughAlpns, {12, 13}) \cup AuthCases({12, 13}) \cup InspCases
+(* update histories on contexts that are already in use: every single update and some pairs (the second one undoing /
+   overriding the first: the LAST push decides), judged by handshakes after the last update *)
+U(p, f, v) == [pos |-> p, field |-> f, val |-> v]
+hA1 == <<Q({nA}, TRUE, TRUE, "ca1")>>
+hA2 == <<Q({nA}, TRUE, TRUE, "ca1"), Q({nB}, TRUE, FALSE, "ca2")>>
+hS  == <<pB, pA>>
+AuthUpds(n) == { <<U(1, "ca", "ca2")>>, <<U(1, "verify", FALSE)>>, <<U(1, "require", FALSE)>>, <<U(1, "names", {nB})>>,
+                 <<U(1, "ca", "ca2"), U(1, "ca", "ca1")>>, <<U(1, "ca", "ca2"), U(1, "verify", FALSE)>> }
+               \cup (IF n = 2 THEN { <<U(2, "ca", "ca1")>>, <<U(2, "require", TRUE)>>, <<U(2, "ca", "ca1"), U(1, "ca", "ca2")>> } ELSE {})
+SelUpds == { <<U(1, "sn", nU)>>, <<U(1, "sn", <<>>)>>, <<U(1, "alpn", {"h2"})>>, <<U(1, "names", {nXA})>>, <<U(2, "names", {nB})>>,
+             <<U(2, "sn", nS)>>, <<U(2, "alpn", {"http/1.1"})>>, <<U(1, "sn", nU), U(1, "sn", nS)>>, <<U(1, "sn", <<>>), U(2, "sn", nS)>> }
+HistCases ==
+  { [side |-> "srv", ctxs |-> cl, upds |-> us, insp |-> FALSE, first |-> "tls", hello |-> H(s, FALSE, {}, p, v)] :
+      cl \in {hA1}, us \in AuthUpds(1), s \in {nA, nB}, p \in {"none", "self", "ca1", "ca2"}, v \in {12, 13} }
+  \cup
+  { [side |-> "srv", ctxs |-> cl, upds |-> us, insp |-> FALSE, first |-> "tls", hello |-> H(s, FALSE, {}, p, v)] :
+      cl \in {hA2}, us \in AuthUpds(2), s \in {nA, nB}, p \in {"none", "self", "ca1", "ca2"}, v \in {12, 13} }
+  \cup
+  { [side |-> "srv", ctxs |-> cl, upds |-> us, insp |-> FALSE, first |-> "tls", hello |-> H(s, FALSE, a, "none", 12)] :
+      cl \in {hS}, us \in SelUpds, s \in {<<>>, nA, nB, nS, nU, nXA}, a \in { {}, {"h2"}, {"http/1.1"} } }
+
+QuickSrv(x) == SelCases(QuickProfiles, 3, QuickSnis, QuickAlpns, {12, 13}) \cup AuthCases({12, 13}) \cup InspCases \cup HistCases
+ThoroughSrv(x) == SelCases(ThoroughProfiles, 3, ThoroughSnis, ThoroughAlpns, {12, 13}) \cup AuthCases({12, 13}) \cup InspCases \cup HistCases
 (* small universe for the defect-rejection runs *)
 SmallSrv(x) == SelCases({pA, pW, pB, pAn}, 2, { <<<<>>, FALSE>>, <<nA, FALSE>>, <<nH2, FALSE>>, <<nU, FALSE>> }, { {}, {"h2"} }, {13})
-            \cup AuthCases({13}) \cup InspCases
+            \cup AuthCases({13}) \cup InspCases \cup HistCases
 
 MCSrv == CASE Tier = "quick" -> QuickSrv(0) [] Tier = "thorough" -> ThoroughSrv(0) [] OTHER -> SmallSrv(0)
 
-AllUp == { [side |-> "up", cfg |-> [sn |-> sn, skip |-> sk, ca |-> ca],
+UpHist(sk) ==
+  { [side |-> "up", cfg |-> [sn |-> nUp, skip |-> sk, ca |-> "ca1"], upds |-> us,
+     cert |-> [names |-> {nUp}, ca |-> cca, expired |-> FALSE]] :
+      cca \in {"ca1", "ca2", "self"},
+      us \in { <<U(0, "skip", ~sk)>>, <<U(0, "ca", "ca2")>>, <<U(0, "sn", nOther)>>,
+               <<U(0, "ca", "ca2"), U(0, "ca", "ca1")>>, <<U(0, "skip", ~sk), U(0, "skip", sk)>> } }
+
+AllUp == { [side |-> "up", cfg |-> [sn |-> sn, skip |-> sk, ca |-> ca], upds |-> <<>>,
             cert |-> [names |-> {nUp}, ca |-> cca, expired |-> ex]] :
              sn \in {<<>>, nUp, nOther}, sk \in BOOLEAN, ca \in {"ca1", "ca2"},
              cca \in {"ca1", "ca2", "self"}, ex \in BOOLEAN }
+         \cup UpHist(TRUE) \cup UpHist(FALSE)
 ====
